@@ -19,12 +19,12 @@ ASSUME = ["z3 answers on fully pinned ground queries are correct", "the referenc
 def task_variants(tier):
     """Yield (label, decl) for one task named 'a'."""
     rels = [None, 0, 1, 2]
-    dues = [(None, True), (2, True), (3, True), (2, False), (0, True)]
+    dues = [(None, True), (2, True), (3, True), (2, False), (0, True), (4, True), (6, True)]
     opts = [False, True]
     works = [0]
     if tier == "thorough":
         rels = [None, 0, 1, 2, 4]
-        dues = [(None, True), (0, True), (2, True), (3, True), (5, True), (2, False)]
+        dues = [(None, True), (0, True), (2, True), (3, True), (4, True), (5, True), (7, True), (2, False), (7, False)]
     out = []
     for opt in opts:
         for rel in rels:
